@@ -94,7 +94,7 @@ CLAIMS = {
                 "16 settable fields at once (guard regions for the set-point and half-degree flag are abstract elements); the vendor "
                 "reference decode applied to the abstract 24-byte body returns every source field (left inverse ⇒ distinct states give "
                 "distinct bodies); no bit collisions, no lossy masks, every byte ≤ 255; the def-use chain setter → attribute → apply → command "
-                "attribute passes every requested value unchanged. All 62 set-points × modes × flags are one abstract state. The CLI's ordering obligation (nothing refreshes the device between assignment and apply, C20.e) is imported. Deprecated setting aliases are transparent wrappers, and a setter writes no other field of the requested state. apply() fills the command before it first suspends (a snapshot of the requested state; suspension-point analysis). apply() stores none of the attributes it encodes.",
+                "attribute passes every requested value unchanged. All 62 set-points × modes × flags are one abstract state. The CLI's ordering obligation (nothing refreshes the device between assignment and apply, C20.e) is imported. Deprecated setting aliases are transparent wrappers, and a setter writes no other field of the requested state. apply() fills the command before it first suspends (a snapshot of the requested state; suspension-point analysis). apply() does not change an attribute it encodes and change it back.",
         "note": TRUST + "transcription of the vendor layout rows (each cites its Lua line, constants re-read from the Lua)",
         "technique": "abstract interpretation in a bit-field/interval/affine domain with trace partitioning (static analysis)",
     },
